@@ -1,5 +1,6 @@
 """Symbolic executor over the naive-form go/ssa dump: forward execution with cut points
 at loops that carry invariants, modular calls through contracts, alias partitions."""
+import re
 import copy
 import itertools
 
@@ -617,7 +618,14 @@ class FuncRun:
                     nm = "%s%s" % (info.name, "".join("[%s]" % p for p in path))
                     tmp = State(self)
                     before = set(self.objs)
-                    self.lazy_vals[key] = self.fresh_value(tmp, lt, nm)
+                    ali = getattr(self, "elem_alias", {}).get((info.name, path[0])) if len(path) == 1 else None
+                    if ali is not None and self.prog.kind(lt) == "ptr":
+                        # this element of the slice is the same pointer as parameter `ali` (alias partition)
+                        pv_ = [self.param_vals[p_["name"]] for i_, p_ in enumerate(self.f["params"])
+                               if (self.c.params[i_] if i_ < len(self.c.params) else p_["name"]) == ali][0]
+                        self.lazy_vals[key] = pv_
+                    else:
+                        self.lazy_vals[key] = self.fresh_value(tmp, lt, nm)
                     self.gdecl.update(tmp.decl)
                     self.gbounds.update(tmp.bounds)
                     self.ghyps.extend(tmp.hyps)
@@ -848,9 +856,13 @@ class FuncRun:
         prog = self.prog
         # parameters
         groups = {}
+        self.elem_alias = {}
         for gi, grp in enumerate(self.partition):
             for p in grp:
                 groups[p] = gi
+                m_ = re.match(r"^(\w+)\[(\d+)\]$", p)
+                if m_:
+                    self.elem_alias[(m_.group(1), int(m_.group(2)))] = [q for q in grp if "[" not in q][0]
         shared = {}
         for i, p in enumerate(f["params"]):
             t = p["type"]
